@@ -139,7 +139,7 @@ class Prop(object):
         prefs = {}
         if case['expired']:
             prefs['key_expiration'] = timedelta(days=1)
-        key, raw = K.pgpy_cert(case['key'], subkeys=[('ed25519b', {KeyFlags.Sign})] if case['key'] == 'rsa2048a' else (), **prefs)
+        key, raw = K.pgpy_cert(case['key'], subkeys=[('ed25519b', {KeyFlags.Sign})], **prefs)
         # a direct-key self-signature, so that verify(key) also examines a signature whose subject is the key itself
         direct = key.certify(key, created=K.dt(K.T0 + 40), hash=HashAlgorithm.SHA256)
         key |= direct
@@ -148,7 +148,9 @@ class Prop(object):
             revsig = key.revoke(key, created=K.dt(K.T0 + 50), hash=HashAlgorithm.SHA256)
             key |= revsig
         doc = 'the quick brown fox\n'
-        sigs = [key.sign(doc, hash=halg, created=K.dt(K.T0 + 100 + i)) for i in range(3)]
+        sub = list(key.subkeys.values())[0]
+        # first and third by the primary, second by the signing subkey (its verdict is merged into the primary's result)
+        sigs = [key.sign(doc, hash=halg, created=K.dt(K.T0 + 100)), sub.sign(doc, hash=halg, created=K.dt(K.T0 + 101)), key.sign(doc, hash=halg, created=K.dt(K.T0 + 102))]
         pub = key.pubkey
         r.dim('key', case['key'])
         r.dim('hash', case['hash'])
